@@ -241,4 +241,126 @@ Section ParserFuel.
                 intros H; apply Hs in E0; apply IH in H; cbn [fst snd length] in *; destruct H as [H1 H2];
                 destruct E0 as [E1 E2]; split; [lia|congruence]).
   Qed.
+
+  Definition okerr {A} (r : res A) : Prop := match r with Ok _ | Err => True | Fuel | Crash => False end.
+
+  Lemma okerr_bind {A B} (r : res A) (g : A -> res B) : okerr r -> (forall x, okerr (g x)) -> okerr (bind r g).
+  Proof. destruct r; cbn [bind okerr]; intros H Hg; try tauto. apply Hg. Qed.
+
+  Lemma parse_name_index_okerr q v : okerr (parse_name_index q v).
+  Proof.
+    unfold parse_name_index.
+    repeat match goal with
+           | |- okerr (if ?c then _ else _) => destruct c
+           | |- okerr (match ?x with _ => _ end) => destruct x
+           end; exact I.
+  Qed.
+
+  Lemma parse_field_name_okerr t d : okerr (parse_field_name t d).
+  Proof.
+    unfold parse_field_name.
+    destruct (negb (tk t =? c_LTOKEN_USERSTRING) || (negb (tq t) && (len (tval t) =? 0))); [exact I|].
+    destruct (if negb (tq t) && d then split_last 124 (tval t) else None) as [[a b]|];
+      (apply okerr_bind; [apply parse_name_index_okerr|intros x; exact I]).
+  Qed.
+
+  Lemma mk_subexpr_okerr nt idx ot vt ty def : okerr (mk_subexpr atof d2f nt idx ot vt ty def).
+  Proof.
+    unfold mk_subexpr.
+    repeat match goal with
+           | |- okerr (if ?c then _ else _) => destruct c
+           | |- okerr (match ?x with _ => _ end) => destruct x
+           | |- okerr (let _ := _ in _) => cbv zeta
+           end; exact I.
+  Qed.
+
+  Lemma p_finish_okerr st : okerr (p_finish st).
+  Proof.
+    unfold FltParse.p_finish.
+    destruct (p_conj st) as [[k kids]|]; [destruct (p_sub st); exact I|].
+    destruct (p_sub st); [exact I|].
+    destruct (length (p_toks st) <? 2)%nat; [exact I|]. cbv zeta.
+    match goal with |- okerr (match ?l with _ => _ end) => destruct l as [|a [|b [|c [|d r]]]] end; try exact I.
+    - destruct (negb (tk a =? c_LTOKEN_EXISTS)); [exact I|].
+      apply okerr_bind; [apply parse_field_name_okerr|]. intros x.
+      apply okerr_bind; [apply mk_subexpr_okerr|]. intros y. exact I.
+    - apply okerr_bind.
+      + destruct (tk a =? c_LTOKEN_WHAT); [exact I|apply parse_field_name_okerr].
+      + intros x. match goal with |- okerr (if ?c then _ else _) => destruct c end; [exact I|].
+        apply okerr_bind; [apply mk_subexpr_okerr|]. intros y. exact I.
+  Qed.
+
+  Lemma p_finish_bind_okerr st (x : stream) : okerr (bind (p_finish st) (fun r0 => Ok (r0, x))).
+  Proof. apply okerr_bind; [apply p_finish_okerr|intros; exact I]. Qed.
+
+  Definition slack (st : pst) : nat := 6 - Nat.min (length (p_toks st)) 5.
+
+  (* p_loop_no_fuel: on the token stream of ANY string the parser finishes within the fuel parse_expr gives it *)
+  Lemma p_loop_okerr : forall fuel s st,
+    tail_ok s -> (length (fst s) + slack st <= fuel)%nat -> okerr (p_loop fuel s st).
+  Proof.
+    induction fuel as [|fuel IH]; intros s st Ht Hf.
+    - unfold slack in Hf. lia.
+    - cbn [FltParse.p_loop]. destruct s as [l tl]. unfold snext. cbn [fst snd] in *.
+      destruct l as [|t l].
+      + destruct tl as [t|]; [|apply p_finish_bind_okerr].
+        destruct Ht as [Ht|Ht]; cbn [snd] in Ht; [discriminate|]. injection Ht as ->.
+        (* the stuck empty word: it is not a structural token *)
+        change (tk stuck_tok =? c_LTOKEN_NOT) with false.
+        change (tk stuck_tok =? c_LTOKEN_LPAREN) with false.
+        change (tk stuck_tok =? c_LTOKEN_RPAREN) with false.
+        change ((tk stuck_tok =? c_LTOKEN_AND) || (tk stuck_tok =? c_LTOKEN_OR) || (tk stuck_tok =? c_LTOKEN_XOR)) with false.
+        cbv iota.
+        destruct (p_conj st); [exact I|]. destruct (p_sub st); [exact I|]. cbv zeta.
+        destruct (4 <? length (p_toks st ++ [stuck_tok]))%nat eqn:E; [exact I|].
+        apply Nat.ltb_ge in E. rewrite app_length in E. cbn [length] in E.
+        apply IH; [right; reflexivity|]. cbn [fst length]. unfold slack in *. cbn [p_toks].
+        rewrite app_length. cbn [length]. lia.
+      + cbn [length] in Hf.
+        assert (Hl : forall st', (slack st' <= slack st)%nat -> okerr (p_loop fuel (l, tl) st')).
+        { intros st' Hs. apply IH; [exact Ht|cbn [fst]; lia]. }
+        assert (Hslack6 : forall st', p_toks st' = [] -> (slack st' <= 6)%nat) by (intros; unfold slack; lia).
+        destruct (tk t =? c_LTOKEN_NOT).
+        { destruct (match p_sub st with Some _ => true | None => negb (length (p_toks st) =? 0)%nat end); [exact I|].
+          apply Hl. unfold slack. cbn [p_toks]. lia. }
+        destruct (tk t =? c_LTOKEN_LPAREN).
+        { destruct (match p_sub st with Some _ => true | None => negb (length (p_toks st) =? 0)%nat end) eqn:Eb; [exact I|].
+          assert (Hnil : length (p_toks st) = 0%nat).
+          { destruct (p_sub st); [discriminate|]. apply negb_false_iff, Nat.eqb_eq in Eb. exact Eb. }
+          assert (Hst : slack st = 6%nat) by (unfold slack; rewrite Hnil; reflexivity).
+          destruct (p_loop fuel (l, tl) pst0) as [[f0 r0]| | |] eqn:E0; cbn [bind fst snd].
+          - apply p_loop_stream in E0. cbn [fst snd] in E0. destruct E0 as [E1 E2].
+            apply IH.
+            + unfold tail_ok. rewrite E2. exact Ht.
+            + unfold slack at 1. cbn [p_toks fst snd]. rewrite Hnil. cbn. lia.
+          - exact I.
+          - assert (Hx : okerr (p_loop fuel (l, tl) pst0)).
+            { apply IH; [exact Ht|cbn [fst]; unfold slack at 1; cbn; lia]. }
+            rewrite E0 in Hx. exact Hx.
+          - assert (Hx : okerr (p_loop fuel (l, tl) pst0)).
+            { apply IH; [exact Ht|cbn [fst]; unfold slack at 1; cbn; lia]. }
+            rewrite E0 in Hx. exact Hx. }
+        destruct (tk t =? c_LTOKEN_RPAREN).
+        { destruct (match p_sub st, p_conj st, p_toks st with Some _, None, [] => true | _, _, _ => false end); [exact I|].
+          apply p_finish_bind_okerr. }
+        destruct ((tk t =? c_LTOKEN_AND) || (tk t =? c_LTOKEN_OR) || (tk t =? c_LTOKEN_XOR)).
+        { destruct (p_sub st); [|exact I].
+          destruct (p_conj st) as [[k0 kids]|].
+          - destruct (negb (k0 =? tk t)); [exact I|]. apply Hl. unfold slack. cbn [p_toks]. lia.
+          - apply Hl. unfold slack. cbn [p_toks]. lia. }
+        destruct (p_conj st); [exact I|]. destruct (p_sub st); [exact I|]. cbv zeta.
+        destruct (4 <? length (p_toks st ++ [t]))%nat eqn:E; [exact I|].
+        apply Nat.ltb_ge in E. rewrite app_length in E. cbn [length] in E.
+        apply IH; [exact Ht|]. cbn [fst]. unfold slack in *. cbn [p_toks]. rewrite app_length. cbn [length]. lia.
+  Qed.
+
+  (* parse_total: CreateQueryFilterFromExpression is defined on every string; the loops of the model never run
+     out of the fuel they are given (a parse error or a filter, always) *)
+  Theorem parse_expr_total (e : bytes) :
+    let chars := ub e in
+    let s := lex_all (S (length chars)) chars in
+    okerr (p_loop (length (fst s) + 8) s pst0).
+  Proof.
+    cbv zeta. apply p_loop_okerr; [apply lex_all_tail_ok|]. unfold slack. cbn. lia.
+  Qed.
 End ParserFuel.
